@@ -27,7 +27,7 @@ ASSUMPTIONS = [
 ]
 
 KEYS = ['x', 'y']
-FINAL_OPS = [('get', 'x'), ('get', 'y'), ('get', 'n'), ('len',), ('list',)]
+FINAL_OPS = [('get', 'x'), ('get', 'y'), ('get', 'n'), ('len',), ('getexp', 'x'), ('getexp', 'y'), ('getexp', 'n'), ('list',)]
 MISS = 'MISS'
 WRITES = {'set', 'add', 'incr', 'decr', 'pop', 'delete', 'setitem'}
 
@@ -48,6 +48,8 @@ def op_strategy(client, idx):
         st.tuples(st.just('pop'), k),
         st.tuples(st.just('delete'), k),
         st.tuples(st.just('touch'), k),
+        st.tuples(st.just('touch'), k, st.just(1000)),  # gives the item an expiry time far in the future
+        st.tuples(st.just('getexp'), k),
         st.tuples(st.just('in'), k),
         st.tuples(st.just('incr'), st.just('n'), st.sampled_from([1, 2, 5])),
         st.tuples(st.just('incr'), st.just('n'), st.sampled_from([1, 2, 5])),
@@ -77,6 +79,16 @@ def program_case(draw, max_clients=4, max_calls=4):
     if draw(st.booleans()):
         init['n'] = ('i', 10)
     schedule = draw(st.lists(st.tuples(st.integers(0, n - 1), st.one_of(st.integers(1, 10), st.sampled_from([14, 20, 30, 50]))), max_size=14))
+    if draw(st.integers(0, 3)) == 0:
+        # built on purpose: SQLite hands the rowid of a deleted last row to the next insert, so an operation that looked its
+        # row up before taking the lock may hit a different key afterwards
+        victim = draw(st.sampled_from(['x', 'y']))
+        other = 'y' if victim == 'x' else 'x'
+        first = draw(st.sampled_from([('touch', victim, 1000), ('touch', victim), ('pop', victim), ('delete', victim), ('incr', victim, 1), ('set', victim, ('s', 'c0.0')), ('get', victim)]))
+        second = [draw(st.sampled_from([('delete', victim), ('pop', victim)])), draw(st.sampled_from([('set', other, ('s', 'c1.1')), ('add', other, ('B', 18, 100)), ('incr', 'n', 1)]))]
+        progs = [[first], second] + progs[2:]
+        init = {k: v for k, v in init.items() if k not in (victim, other)}
+        init[victim] = draw(st.sampled_from([('i', 5), ('s', 'init-v')])) if first[0] != 'incr' else ('i', 5)  # inserted last: highest rowid
     return {
         'mode': draw(st.sampled_from(['own', 'own', 'shared'])),
         'statistics': draw(st.booleans()),
@@ -117,6 +129,9 @@ def do_op(cache, op):
         if name == 'get':
             r = cache.get(op[1], default=MISS, retry=True)
             return ('ok', MISS if r is MISS or r == MISS else unmk(r))
+        if name == 'getexp':
+            r = cache.get(op[1], default=MISS, expire_time=True, retry=True)
+            return ('ok', MISS if r[0] is MISS or r[0] == MISS else ('no-ttl' if r[1] is None else 'ttl'))
         if name == 'getitem':
             return ('ok', unmk(cache[op[1]]))
         if name == 'pop':
@@ -125,7 +140,7 @@ def do_op(cache, op):
         if name == 'delete':
             return ('ok', cache.delete(op[1], retry=True))
         if name == 'touch':
-            return ('ok', cache.touch(op[1], retry=True))
+            return ('ok', cache.touch(op[1], expire=op[2] if len(op) > 2 else None, retry=True))
         if name == 'in':
             return ('ok', op[1] in cache)
         if name == 'incr':
@@ -142,42 +157,56 @@ def do_op(cache, op):
 
 
 def model_apply(state, call):
-    """state: tuple of sorted (key, spec).  Returns (new_state, ok)."""
+    """state: tuple of sorted (key, (spec, has_ttl)).  touch(k, 1000) gives the item a (never reached) expiry time, touch(k)
+    removes it; getexp reports whether the item carries one.  Returns (new_state, ok)."""
     d = dict(state)
     op, res = call.op, call.result
     name = op[0]
     if res == ('exc', 'Timeout'):
         return state, True  # not applied
+    k = op[1] if len(op) > 1 else None
     if name == 'set':
-        d[op[1]] = op[2]
+        d[k] = (op[2], False)
         exp = ('ok', True)
     elif name == 'add':
-        if op[1] in d:
+        if k in d:
             exp = ('ok', False)
         else:
-            d[op[1]] = op[2]
+            d[k] = (op[2], False)
             exp = ('ok', True)
     elif name == 'get':
-        exp = ('ok', d.get(op[1], MISS))
+        exp = ('ok', d[k][0] if k in d else MISS)
+    elif name == 'getexp':
+        exp = ('ok', ('ttl' if d[k][1] else 'no-ttl') if k in d else MISS)
     elif name == 'getitem':
-        exp = ('ok', d[op[1]]) if op[1] in d else ('exc', 'KeyError')
+        exp = ('ok', d[k][0]) if k in d else ('exc', 'KeyError')
     elif name == 'pop':
-        exp = ('ok', d.pop(op[1], MISS))
+        exp = ('ok', d.pop(k)[0] if k in d else MISS)
     elif name == 'delete':
-        exp = ('ok', op[1] in d)
-        d.pop(op[1], None)
-    elif name in ('touch', 'in'):
-        exp = ('ok', op[1] in d)
+        exp = ('ok', k in d)
+        d.pop(k, None)
+    elif name == 'touch':
+        exp = ('ok', k in d)
+        if k in d:
+            d[k] = (d[k][0], len(op) > 2 and op[2] is not None)
+    elif name == 'in':
+        exp = ('ok', k in d)
     elif name in ('incr', 'decr'):
         delta = op[2] if name == 'incr' else -op[2]
-        cur = d.get(op[1], ('i', 0))
-        d[op[1]] = ('i', cur[1] + delta)
-        exp = ('ok', cur[1] + delta)
+        if k in d:
+            d[k] = (('i', d[k][0][1] + delta), d[k][1])  # a live counter keeps its expiry
+        else:
+            d[k] = (('i', delta), False)
+        exp = ('ok', d[k][0][1])
     elif name == 'len':
         exp = ('ok', len(d))
     else:
         raise HarnessError('model: unknown op %r' % (op,))
     return tuple(sorted(d.items())), exp == res
+
+
+def init_state_of(init):
+    return tuple(sorted((k, (spec, False)) for k, spec in init.items()))
 
 
 def op_key(op):
@@ -199,7 +228,7 @@ def check_history(calls, init_state, pid='C05'):
             raise Violation('%s/torn-value' % pid, 'call %r observed a partial or mixed value\n%s' % (c, fmt(calls)))
 
     def skippable(c):
-        if c.op[0] in ('get', 'getitem') and is_miss(c):
+        if c.op[0] in ('get', 'getitem', 'getexp') and is_miss(c):
             k = op_key(c.op)
             return any(o is not c and o.client != c.client and o.op[0] in WRITES and op_key(o.op) == k and overlaps(o, c) for o in lin)
         return False
@@ -256,7 +285,7 @@ def run_program(env, case, inspect=None):
         return caches, caches
 
     calls, sched = run_scheduled(env, case['progs'], case['schedule'], open_clients, do_op, 'C05', warm=lambda c: c._sql, inspect=inspect, final_ops=FINAL_OPS)
-    return calls, tuple(sorted(case['init'].items())), sched
+    return calls, init_state_of(case['init']), sched
 
 
 class Programs(SubCheck):
@@ -299,7 +328,10 @@ class ProcessPrograms(SubCheck):
         return 40 if tier == 'quick' else 1500
 
     def strategy(self, tier):
-        return program_case(max_clients=3, max_calls=3).map(lambda c: dict(c, mode='inherited' if c['mode'] == 'shared' else 'own'))
+        def adapt(c):
+            return dict(c, mode='inherited' if c['mode'] == 'shared' else 'own')
+
+        return program_case(max_clients=3, max_calls=3).map(adapt)
 
     def execute(self, case, env):
         import diskcache
@@ -326,7 +358,7 @@ class ProcessPrograms(SubCheck):
         if run.limit_hit:
             return {'nontrivial': False, 'classes': ['step-limit']}
         mark_interleaved(calls, run.trace)
-        check_history(calls, tuple(sorted(case['init'].items())))
+        check_history(calls, init_state_of(case['init']))
         nontrivial = False
         for a in calls:
             for b in calls:
